@@ -61,32 +61,36 @@ def Q(pre, op, src=None, kf_only=None, stub=True, **kw):
     return Query(name, 'C12_value.cpp', 'h_step', d, bounds=B, default_unwind=6, rec_bounds={}, default_rec=3, timeout=300, mem_gb=8,
                  leak=True, stubs=({STN: 'stub_strtonum'} if stub else {}), kf_excl=excl, kf_only=(None if MAN else kf_only), **kw)
 
-def ops_for(p, A, full, srcs):
-    """every operation applied to pre-state class p; full=False: one representative variant per operation"""
-    f = full
+def ops_for(p, A, lvl, srcs):
+    """the operations applied to pre-state class p.  lvl 2: every overload / argument shape; 1: representative variants; 0: one variant per operation"""
+    f = lvl == 2; r = lvl >= 1
     for op in ('NONE', 'AS_SELF', 'CTOR_COPY', 'CTOR_MOVE', 'RESET', 'COMPRESS', 'GET_KEY'): A(op)
-    for s in (range(6) if f else (0, 3, 5)): A('AS_SCALAR', SEL=s)
-    for t in ((0, 2, 3, 4, 5, 6, 7, 8, 9, 10) if f else (0, 2, 3)): A('AS_TYPE', SEL=t)
+    for s in (range(6) if f else ((0, 3, 5) if r else (3,))): A('AS_SCALAR', SEL=s)
+    for t in ((0, 2, 3, 4, 5, 6, 7, 8, 9, 10) if f else ((0, 2, 3) if r else (3,))): A('AS_TYPE', SEL=t)
     for l in ((0, 1, 2) if f else (1,)): A('AS_STR', LEN_A=l, SEL=0)
-    A('AS_STR', SEL=1)
+    if r: A('AS_STR', SEL=1)
     for an in ((0, 1, 2) if f else (1,)):
-        for w in (0, 1): A('AS_ARR', AN=an, W=w); A('AS_OBJ', AN=an, W=w)
-    for op in ('AS_COPY', 'AS_MOVE', 'AP_COPY', 'AP_MOVE', 'MERGE_COPY', 'MERGE_MOVE'):
-        for s in srcs: A(op, src=s)
-    for s, w in (((0, 0), (1, 0), (2, 0), (3, 0), (3, 1), (3, 2), (3, 3), (4, 0), (4, 1), (4, 2), (4, 3), (5, 0), (5, 1)) if f else ((0, 0), (3, 0), (5, 1))):
+        for w in ((0, 1) if r else (0,)): A('AS_ARR', AN=an, W=w); A('AS_OBJ', AN=an, W=1 - w)
+    if r:
+        for op in ('AS_COPY', 'AS_MOVE', 'AP_COPY', 'AP_MOVE', 'MERGE_COPY', 'MERGE_MOVE'):
+            for s in srcs: A(op, src=s)
+    else:
+        A('AS_COPY', src='A_UI'); A('AS_MOVE', src='O_a.UI'); A('AP_COPY', src='O_a.UI'); A('AP_MOVE', src='A_UI'); A('MERGE_COPY', src='A_UI'); A('MERGE_MOVE', src='O_a.UI')
+    for s, w in (((0, 0), (1, 0), (2, 0), (3, 0), (3, 1), (3, 2), (3, 3), (4, 0), (4, 1), (4, 2), (4, 3), (5, 0), (5, 1)) if f else (((0, 0), (3, 0), (5, 1)) if r else ((3, 0),))):
         A('AP_SCALAR', SEL=s, W=w)
-    for l, w in ([(l, w) for l in (0, 1, 2) for w in (0, 1, 2, 3)] if f else ((1, 0), (1, 3))): A('AP_STR', LEN_A=l, W=w)
-    for an, w in ([(an, w) for an in (0, 1, 2) for w in (0, 1)] if f else ((0, 0), (1, 0), (1, 1))): A('AP_ARR', AN=an, W=w)
-    for an, w in ([(an, w) for an in (0, 1, 2) for w in (0, 1)] if f else ((1, 0), (2, 1))): A('AP_OBJ', AN=an, W=w)
+    for l, w in ([(l, w) for l in (0, 1, 2) for w in (0, 1, 2, 3)] if f else (((1, 0), (1, 3)) if r else ((1, 1),))): A('AP_STR', LEN_A=l, W=w)
+    for an, w in ([(an, w) for an in (0, 1, 2) for w in (0, 1)] if f else (((0, 0), (1, 0), (1, 1)) if r else ((1, 1),))): A('AP_ARR', AN=an, W=w)
+    for an, w in ([(an, w) for an in (0, 1, 2) for w in (0, 1)] if f else (((1, 0), (2, 1)) if r else ((1, 0),))): A('AP_OBJ', AN=an, W=w)
     for s in (('UI', 'S1', 'A_UI', 'O_a.UI') if f else ('UI',)):
         for sel in (0, 1):
-            A('AP_PTR', src=s, SEL=sel); A('SET_PTR', src=s, SEL=sel)
+            if r or sel == 0: A('AP_PTR', src=s, SEL=sel)
+            A('SET_PTR', src=s, SEL=sel)
     if not holes(p):
-        for i, w in ([(i, w) for i in (0, 1, 2, 3) for w in (0, 1, 2)] if f else ((0, 0), (1, 0), (2, 0), (1, 1), (1, 2))): A('INDEX', IDX=i, W=w)
-        for i in (0, 1, 2): A('REMOVE_INDEX', IDX=i)
-    for ka, w in ([(ka, w) for ka in (0, 1, 2, 3) for w in range(6)] if f else ((1, 0), (2, 1), (3, 2), (0, 3), (1, 4), (2, 5))): A('KEY', KA=ka, W=w)
-    for ka, s in ([(ka, s) for ka in (1, 3) for s in ('UI', 'S1', 'A_UI', 'O_a.UI')] if f else ((1, 'UI'), (2, 'A_UI'))): A('INSERT', KA=ka, src=s)
-    for ka, w in ([(ka, w) for ka in (0, 1, 2, 3) for w in (0, 1, 2)] if (f and is_obj(p)) else ((1, 0), (1, 1), (2, 2), (3, 1), (0, 0))): A('REMOVE_KEY', KA=ka, W=w)
+        for i, w in ([(i, w) for i in (0, 1, 2, 3) for w in (0, 1, 2)] if f else (((0, 0), (1, 0), (2, 0), (1, 1), (1, 2)) if r else ((1, 0),))): A('INDEX', IDX=i, W=w)
+        for i in ((0, 1, 2) if r else (0,)): A('REMOVE_INDEX', IDX=i)
+    for ka, w in ([(ka, w) for ka in (0, 1, 2, 3) for w in range(6)] if f else (((1, 0), (2, 1), (3, 2), (0, 3), (1, 4), (2, 5)) if r else ((1, 0), (3, 2)))): A('KEY', KA=ka, W=w)
+    for ka, s in ([(ka, s) for ka in (1, 3) for s in ('UI', 'S1', 'A_UI', 'O_a.UI')] if f else (((1, 'UI'), (2, 'A_UI')) if r else ((1, 'UI'),))): A('INSERT', KA=ka, src=s)
+    for ka, w in ([(ka, w) for ka in (0, 1, 2, 3) for w in (0, 1, 2)] if (f and is_obj(p)) else (((1, 0), (1, 1), (2, 2), (3, 1), (0, 0)) if r else ((1, 1),))): A('REMOVE_KEY', KA=ka, W=w)
     c = cls(p)
     if c['K'] == 3 and c['N'] > 0 and c['E1'] != 0:
         A('AP_ELEM', SEL=0); A('AP_ELEM', SEL=1)
@@ -94,20 +98,25 @@ def ops_for(p, A, full, srcs):
 def queries(tier):
     q = tier == 'quick'
     qs = []
-    core = ['UI', 'S1', 'A_U_I', 'O_a.UI_b.S', 'P_UI'] if q else \
-           ['U', 'NUL', 'T', 'F', 'UI', 'I', 'D', 'S0', 'S1', 'S2', 'A', 'A_UI', 'A_S', 'A_UI_I', 'A_U_I', 'A_UI_U', 'A_T_S',
-            'O', 'O_a.UI', 'O_ab.S', 'O_a.UI_b.S', 'O_e.NUL_ab.D', 'O_a.X_b.UI', 'O_a.UI_b.X', 'O_a.U_b.T',
-            'P_UI', 'P_S1', 'P_A_UI', 'P_O_a.UI']
-    side = ['U', 'NUL', 'D', 'A', 'A_UI', 'O', 'O_a.UI', 'O_a.X_b.UI', 'O_a.U_b.T', 'P_A_UI', 'P_O_a.UI'] if q else ['A_U', 'A_D', 'A_U_U', 'O_b.T_a.F', 'P_U', 'P_D']
-    srcs = ['UI', 'A_UI', 'O_a.UI'] if q else ['U', 'UI', 'S1', 'A', 'A_UI', 'A_U_I', 'O', 'O_a.UI', 'O_b.S_a.I', 'O_a.X_ab.T', 'P_UI', 'P_O_a.UI']
-    for p in core:
-        ops_for(p, lambda op, **kw: qs.append(Q(p, op, **kw)), not q, srcs)
-    for p in side:      # further pre-state classes: observers, copy, move, reset, compress, one append, one keyed write
-        for op in ('NONE', 'CTOR_COPY', 'CTOR_MOVE', 'RESET', 'COMPRESS'): qs.append(Q(p, op))
-        qs.append(Q(p, 'AP_SCALAR', SEL=3, W=0)); qs.append(Q(p, 'KEY', KA=1, W=0)); qs.append(Q(p, 'AS_COPY', src='O_a.UI'))
+    if q:
+        plan = [('A_U_I', 1), ('O_a.UI_b.S', 1), ('UI', 0), ('S1', 0), ('P_UI', 0)]
+        side = ['U', 'NUL', 'D', 'O', 'O_a.X_b.UI', 'O_a.U_b.T', 'P_O_a.UI']
+        srcs = ['UI', 'A_UI', 'O_a.UI']
+    else:
+        plan = [(p, 2) for p in ('U', 'UI', 'D', 'S1', 'A_U_I', 'O_a.UI_b.S', 'O_a.X_b.UI', 'P_UI')] + \
+               [(p, 1) for p in ('NUL', 'T', 'I', 'S0', 'S2', 'A', 'A_UI', 'A_S', 'A_UI_I', 'A_T_S', 'O', 'O_a.UI', 'O_e.NUL_ab.D', 'O_a.UI_b.X', 'O_a.U_b.T', 'P_S1', 'P_A_UI', 'P_O_a.UI')]
+        side = ['F', 'A_U', 'A_D', 'A_U_U', 'A_UI_U', 'O_ab.S', 'O_b.T_a.F', 'P_U', 'P_D']
+        srcs = ['U', 'UI', 'S1', 'A_UI', 'A_U_I', 'O_a.UI', 'O_b.S_a.I', 'P_UI']
+    for p, lvl in plan:
+        ops_for(p, (lambda op, p=p, **kw: qs.append(Q(p, op, **kw))), lvl, srcs)
+    for p in side:      # further pre-state classes: observers, copy, move (+ thorough: reset, compress, one append, one keyed write, one assignment)
+        for op in (('NONE', 'CTOR_COPY', 'CTOR_MOVE') if q else ('NONE', 'CTOR_COPY', 'CTOR_MOVE', 'RESET', 'COMPRESS')): qs.append(Q(p, op))
+        if not q:
+            qs.append(Q(p, 'AP_SCALAR', SEL=3, W=0)); qs.append(Q(p, 'KEY', KA=1, W=0)); qs.append(Q(p, 'AS_COPY', src='O_a.UI'))
     for p, bvs in (('A', (1, 2, 3)), ('A_UI_I', (1, 2, 3)), ('O', (1, 2, 3)), ('O_a.UI_b.S', (1, 2, 3)), ('O_a.X_b.UI', (1, 2, 3))):   # the other constructor families
         for bv in (bvs if not q else bvs[1:2]):
-            qs.append(Q(p, 'NONE', BV=bv)); qs.append(Q(p, 'CTOR_COPY', BV=bv))
+            qs.append(Q(p, 'NONE', BV=bv))
+            if not q: qs.append(Q(p, 'CTOR_COPY', BV=bv))
     # numeric / boolean coercion of strings (real Digit::stringToNumber and power kernels, no stub): concrete texts with their expected reading
     def dbl(x): return struct.unpack('<Q', struct.pack('<d', x))[0]
     CO = [('0', 2, 0, 0), ('7', 2, 7, 0), ('123', 2, 123, 0), ('-5', 3, (1 << 64) - 5, 0), ('1.5', 1, dbl(1.5), 0), ('true', 0, 0, 1), ('false', 0, 0, 2),
